@@ -1132,7 +1132,7 @@ def mon_B(case, pid):
                 for k, e in snap["store"].items():
                     if e["expiry"] is not None and snap["now"] > e["expiry"] and e["id"] in snap["kw"] and e["id"] not in indexed:
                         seen.add("unsweepable")
-                        cause = "index-entry-lost-after-overlapping-upserts" if k in lv["overlapped"] else "no-overlap"
+                        cause = "index-entry-lost-after-overlapping-upserts" if k in lv["overlapped"] else ("index-entry-lost-after-upsert-overtook-the-put" if k in lv.get("overtook", set()) else "no-overlap")
                         yield finding("C10", st, f"key {k} (id {e['id']}) has expired (deadline {e['expiry']}, clock {snap['now']}) and is still held and charged, but the expiry index has no entry for its id: no sweep will ever remove it", f"C10/expired-key-unsweepable/{cause}")
                         break
             lv["prev_pcs"] = pcs
